@@ -7,6 +7,7 @@ import (
 
 	"github.com/btcsuite/btcd/chaincfg"
 	"github.com/btcsuite/btcd/chaincfg/chainhash"
+	"github.com/btcsuite/btcd/txscript"
 	"github.com/btcsuite/btcd/wire"
 	"github.com/btcsuite/btcwallet/waddrmgr"
 	"github.com/btcsuite/btcwallet/wtxmgr"
@@ -215,3 +216,24 @@ func (s *Scenario) IneligibleKinds(q EligibleQuery) map[string]int {
 	}
 	return kinds
 }
+
+// OwnFromWallet asks the wallet whether a script is one of its own (used for
+// change addresses the wallet created itself) and returns the book entry.
+func OwnFromWallet(f *Fixture, script []byte) *OwnAddr {
+	_, addrs, _, err := txscriptExtract(script, f.Params)
+	if err != nil || len(addrs) != 1 {
+		return nil
+	}
+	ma, err := f.W.AddressInfo(addrs[0])
+	if err != nil {
+		return nil
+	}
+	own := &OwnAddr{Addr: addrs[0], Script: script, Account: ma.InternalAccount(), Branch: 1}
+	if pk, ok := ma.(waddrmgr.ManagedPubKeyAddress); ok {
+		sc, _, _ := pk.DerivationInfo()
+		own.Scope = sc
+	}
+	return own
+}
+
+var txscriptExtract = txscript.ExtractPkScriptAddrs
